@@ -6,6 +6,9 @@ import os
 VERIF = os.path.dirname(os.path.dirname(os.path.abspath(__file__)))
 
 CHECKS = {
+    "C17": ("history-replay monitor: every underlying x payoff evaluated on a fresh product and on a long-lived one after generated histories (other paths, knocking paths, representation switches), in both representations; harness-side path scans and algebraic identities as oracle",
+            "Held-on-observed: purity, identity = log representation, parity / spread / butterfly / digital identities, knock-in + knock-out = vanilla with the barrier event scanned by the harness, averages within extremes, default times, n-th-to-default monotone, notional linearity.",
+            "LookBack excluded; rate payoffs (Bond, Cap, Ratchet, Swaption) not exercised.", "3/C17"),
     "C18": ("runtime monitor of static no-arbitrage relations and cross-method agreement (COS, FFT, Black-Scholes closed form, VG vs CGMY(y=0)) on generated models of a documented box; tolerances calibrated on 3000 models with a 10x margin",
             "Held-on-observed: parity, bounds, monotonicity, convexity, digital range/monotonicity, density positivity and mass, cdf, scalar = vector strikes, price(product), COS = FFT = closed form.",
             "Empirical parameter box (not a proof of truncation error); strikes in the middle 40% of the COS range.", "3/C18"),
